@@ -199,10 +199,16 @@ def native_parse(logic, text):
 QUOTED = ['"s"', '"a b"', '"\\""', '"\\\\"', '"\\q"', '"\\x"', '"\\u12"', '"\\N{x}"', '"\\x41"', '"or"', '""']
 
 
+def layouts(text):
+    """the same lexeme string under other whitespace layouts (whitespace is ignored by the grammar; positions must stay inside)"""
+    toks = text.split(' ')
+    return [text, '\n'.join(toks), '\t'.join(toks), '\r\n'.join(toks), '\n\n' + text, text + '\t', ' \n\t ' + '  '.join(toks)]
+
+
 def variants(text):
     if '"s"' not in text:
-        return [text]
-    return [text.replace('"s"', q) for q in QUOTED]
+        return layouts(text) if text else [text]
+    return [text.replace('"s"', q) for q in QUOTED] + layouts(text)[1:]
 
 
 def lalr_task(logic, L, nwit=30):
